@@ -205,6 +205,21 @@ def _cls_pattern_overlap():
     return Overlap
 
 
+def _cls_child_after_parent_serialized():
+    from statham.serializers import serialize_json, serialize_python
+
+    class SBase(Object, additionalProperties=False):
+        a = Property(Integer(), required=True)
+
+    class SChild(SBase, additionalProperties=True):
+        b = Property(String(), required=True)
+
+    serialize_json(SBase)
+    serialize_python(SBase)
+    SBase({"a": 1})
+    return SChild
+
+
 def _inline():
     return Object.inline("Inl", properties={"a": Property(Integer(), required=True), "b_": Property(String(default="z"), source="b")}, additionalProperties=False)
 
@@ -213,7 +228,7 @@ def object_classes():
     return [
         ("Plain", _cls_plain), ("Renamed", _cls_renamed), ("ReqKw", _cls_required_kw), ("Kw", _cls_keywords), ("Add", _cls_additional_schema),
         ("CE", _cls_const_enum), ("Outer", _cls_nested), ("Holder", _cls_shared_twice), ("Child", _cls_inherit2), ("C3", _cls_inherit3),
-        ("D", _cls_default_obj), ("Comp", _cls_composition_props), ("Inl", _inline), ("DHolder", _cls_default_inherit), ("Overlap", _cls_pattern_overlap),
+        ("D", _cls_default_obj), ("Comp", _cls_composition_props), ("Inl", _inline), ("DHolder", _cls_default_inherit), ("Overlap", _cls_pattern_overlap), ("SChild(after parent was serialized)", _cls_child_after_parent_serialized),
     ]
 
 
@@ -240,6 +255,9 @@ def arrays_and_compositions():
         ("Array([], additionalItems=class)", lambda: Array([], additionalItems=_cls_renamed())),
         ("Element(items=[], additionalItems=Array(Number()))", lambda: Element(items=[], additionalItems=Array(Number()))),
         ("Array(Nothing())", lambda: Array(Nothing())),
+        ("Array(Integer(), additionalItems=class)", lambda: Array(Integer(), additionalItems=_cls_plain())),
+        ("Element(additionalItems=class)", lambda: Element(additionalItems=_cls_renamed())),
+        ("Element(items=String(), additionalItems=Array(class))", lambda: Element(items=String(), additionalItems=Array(_cls_plain()))),
         ("Element(additionalProperties=Number())", lambda: Element(additionalProperties=Number(), patternProperties={"^s": String()})),
         ("Array(Array)", lambda: Array(Array(Number()))),
         ("Element(items tuple)", lambda: Element(items=[Integer(), Element(const=True)], additionalItems=Nothing())),
